@@ -3,11 +3,13 @@ import Taskpool.Inv.ControlParse
 
 `C17_roundtrip`: for every well-formed member table, every public method, every way of writing a call — a value for
 each single positional parameter, any number of values for the var-positional one, any set of options — each as its
-short flag, its long option string or an unambiguous abbreviation of it, the long ones as `--name value` or
-`--name=value` —, before or after the positionals — the parse is the call of that member whose namespace is read out by
+short flag (`-c value`, `-cvalue`, `-c=value`), its long option string or an unambiguous abbreviation of it, the long ones
+as `--name value` or `--name=value` —, before or after the positionals — the parse is the call of that member whose namespace is read out by
 `C17_value_*`: each positional its value, the var-positional all of its values, each written option its value, each
 omitted option the method's own default (`dflt`; `False` for a flag).  `C17_dispatch_exact` splits that namespace
-into `m(*positional, *var_positional, **keyword)`; `C17_reply_rule` is the reply.
+into `m(*positional, *var_positional, **keyword)`; `C17_reply_rule` is the reply.  `C17_roundtrip_cluster` is the same
+round trip with several options in one single-dash string (`-ab`, `-abcV`), `C17_roundtrip_after_separator` the one with
+`--` in front of, inside or behind the positional strings.
 Lexing of decimal numbers, Python literals and dotted paths is not part of the theorem: tokens are structured and a
 value carries what Python's converter makes of it (validated by the differential run).
 
@@ -36,10 +38,14 @@ theorem C17_roundtrip (ms : List Member) (hwf : wellFormed ms = true) (m : Membe
     intro t ht
     simp only [List.mem_append] at ht
     rcases ht with h | h | h | h
-    · exact (ambiguousTok_renderOpts hok hpre t h).2
-    · exact (ambiguousTok_renderPos (optTable m.params) _ t h).2
-    · exact (ambiguousTok_renderPos (optTable m.params) _ t h).2
-    · exact (ambiguousTok_renderOpts hok hpost t h).2
+    · rw [← renderItems_one] at h
+      exact (plain_renderItems hok (l := pre.map .one)
+        (by intro it hit; obtain ⟨c, hc, rfl⟩ := List.mem_map.mp hit; exact hpre c hc) t h).2.1
+    · exact (plain_renderPos (optTable m.params) _ t h).2.1
+    · exact (plain_renderPos (optTable m.params) _ t h).2.1
+    · rw [← renderItems_one] at h
+      exact (plain_renderItems hok (l := post.map .one)
+        (by intro it hit; obtain ⟨c, hc, rfl⟩ := List.mem_map.mp hit; exact hpost c hc) t h).2.1
   have hany : (Tok.word cmd :: (renderOpts pre ++ (renderPos pargs ++ (renderPos sargs ++ renderOpts post)))).any
       Tok.isOther = false := by
     rw [List.any_eq_false]
@@ -156,9 +162,9 @@ theorem C17_roundtrip_eq_form (ms : List Member) (hwf : wellFormed ms = true) (m
   have hkf : p.kind ≠ .flag := by simp [hk]
   have h1 := roundtrip_one ms hwf m hm he hfun singles starL hpos hsing hstar cmd hcmd pargs sargs hp hs
     { p := p, short := none, w := w, a := a, eq := true }
-    ⟨hpm, hopt, by simp, fun _ => hconv, by simp, fun _ => hdd⟩
+    ⟨hpm, hopt, by simp, fun _ => hconv, by simp, fun _ => hdd, by simp⟩
   have h2 := roundtrip_one ms hwf m hm he hfun singles starL hpos hsing hstar cmd hcmd pargs sargs hp hs
-    (plainChoice p w a) ⟨hpm, hopt, by simp [plainChoice], fun _ => hconv, by simp [plainChoice], by simp [plainChoice]⟩
+    (plainChoice p w a) ⟨hpm, hopt, by simp [plainChoice], fun _ => hconv, by simp [plainChoice], by simp [plainChoice], by simp [plainChoice]⟩
   have hr1 : ({ p := p, short := none, w := w, a := a, eq := true } : Choice).render = [.eq (dash p.name) w] := by
     simp [Choice.render, Choice.longName, hkf]
   have hr2 : (plainChoice p w a).render = [.long (dash p.name), .word w] := by
@@ -200,7 +206,7 @@ theorem C17_roundtrip_abbrev (ms : List Member) (hwf : wellFormed ms = true) (m 
     have hkf : p.kind ≠ .flag := by simp [hk]
     have h1 := roundtrip_one ms hwf m hm he hfun singles starL hpos hsing hstar cmd hcmd pargs sargs hp hs
       { p := p, short := none, w := w, a := a, abbr := some n }
-      ⟨hpm, hopt, by simp, fun _ => hconv, by simpa using hab, by simp⟩
+      ⟨hpm, hopt, by simp, fun _ => hconv, by simpa using hab, by simp, by simp⟩
     have hr1 : ({ p := p, short := none, w := w, a := a, abbr := some n } : Choice).render = [.long n, .word w] := by
       simp [Choice.render, Choice.longName, hkf]
     rw [hr1] at h1
@@ -208,7 +214,7 @@ theorem C17_roundtrip_abbrev (ms : List Member) (hwf : wellFormed ms = true) (m 
     intro hdd
     have h2 := roundtrip_one ms hwf m hm he hfun singles starL hpos hsing hstar cmd hcmd pargs sargs hp hs
       { p := p, short := none, w := w, a := a, abbr := some n, eq := true }
-      ⟨hpm, hopt, by simp, fun _ => hconv, by simpa using hab, fun _ => hdd⟩
+      ⟨hpm, hopt, by simp, fun _ => hconv, by simpa using hab, fun _ => hdd, by simp⟩
     have hr2 : ({ p := p, short := none, w := w, a := a, abbr := some n, eq := true } : Choice).render = [.eq n w] := by
       simp [Choice.render, Choice.longName, hkf]
     rw [hr2] at h2
@@ -216,11 +222,199 @@ theorem C17_roundtrip_abbrev (ms : List Member) (hwf : wellFormed ms = true) (m 
   · intro hk
     have h1 := roundtrip_one ms hwf m hm he hfun singles starL hpos hsing hstar cmd hcmd pargs sargs hp hs
       { p := p, short := none, w := w, a := a, abbr := some n }
-      ⟨hpm, hopt, by simp, fun h => absurd hk h, by simpa using hab, by simp⟩
+      ⟨hpm, hopt, by simp, fun h => absurd hk h, by simpa using hab, by simp, by simp⟩
     have hr1 : ({ p := p, short := none, w := w, a := a, abbr := some n } : Choice).render = [.long n] := by
       simp [Choice.render, Choice.tok, Choice.longName, hk]
     rw [hr1] at h1
     exact ⟨h1, by simpa [plainChoice, Choice.val, hk] using hval⟩
+
+/-! ### short options with the value in the same string, clusters of flags, the separator `--`
+
+argparse (3.12.1) reads a single-dash string letter by letter: behind the letter of an option that takes a value the rest
+of the string is that value (`-gG`; one `=` directly behind the FIRST letter of the string is dropped: `-g=G`); behind the
+letter of a flag the next character must again be an option letter (`-ab` = `-a -b`, `-abgG` = `-a -b -g G`, `-abg G`
+likewise).  `--` ends the options: every string behind it is positional; the first `--` itself is dropped by the
+positional parameter that takes it in.  `C17_roundtrip` covers the two one-option forms (`Choice.glued`);
+`C17_roundtrip_cluster` is the round trip for `Item`s — options on their own in any form, and clusters —,
+`C17_roundtrip_after_separator` the one with `--` anywhere in or in front of the positional strings. -/
+
+/-- the round trip with clusters: every public method, a value per single positional, any values for the var-positional,
+any options before and/or after them, each on its own in any of its forms or several in one single-dash string (flags,
+then possibly an option with its value attached or in the next string) ⇒ the call of that member; the namespace is that
+of the options written one by one (`itemChoices`), so `C17_value_*` read it out -/
+theorem C17_roundtrip_cluster (ms : List Member) (hwf : wellFormed ms = true) (m : Member) (hm : m ∈ ms)
+    (he : m.exposed = true) (hfun : m.kind = .function)
+    (singles starL : List Param) (hpos : m.params.filter Param.isPos = singles ++ starL)
+    (hsing : ∀ p ∈ singles, p.kind = .positional)
+    (hstar : starL = [] ∨ ∃ sp, starL = [sp] ∧ sp.kind = .varPositional)
+    (cmd : Word) (hcmd : cmd.text = dash m.name)
+    (pargs sargs : List PosArg) (hp : posOk singles pargs) (hs : ∀ x ∈ sargs, ∃ sp ∈ starL, x.ok sp)
+    (pre post : List Item) (hpre : ∀ it ∈ pre, it.ok m.params) (hpost : ∀ it ∈ post, it.ok m.params) :
+    parseLine (commandTable ms) (.word cmd :: (renderItems pre ++ (renderPos pargs ++ (renderPos sargs ++ renderItems post))))
+      = some (.act (.call m.name
+          (m.params.map fun p => (p.name, argFor (finalState singles starL pargs sargs (itemChoices (pre ++ post))) p)))) := by
+  have hok := wf_params hwf hm he
+  have hno : ∀ t ∈ renderItems pre ++ (renderPos pargs ++ (renderPos sargs ++ renderItems post)), Tok.isOther t = false := by
+    intro t ht
+    simp only [List.mem_append] at ht
+    rcases ht with h | h | h | h
+    · exact (plain_renderItems hok hpre t h).2.1
+    · exact (plain_renderPos (optTable m.params) _ t h).2.1
+    · exact (plain_renderPos (optTable m.params) _ t h).2.1
+    · exact (plain_renderItems hok hpost t h).2.1
+  have hany : (Tok.word cmd :: (renderItems pre ++ (renderPos pargs ++ (renderPos sargs ++ renderItems post)))).any
+      Tok.isOther = false := by
+    rw [List.any_eq_false]
+    intro t ht
+    rcases List.mem_cons.mp ht with rfl | ht
+    · simp [Tok.isOther]
+    · simp [hno t ht]
+  simp only [parseLine, hany, hcmd, lookupCmd_exposed hwf hm he]
+  exact parseCmd_roundtrip_items hfun hok hpos hsing hstar hp hs hpre hpost
+
+/-- several options in one single-dash string are the call their options give written one by one, each in full
+(`--name`, `--name value`) -/
+theorem C17_cluster_eq_separate (ms : List Member) (hwf : wellFormed ms = true) (m : Member) (hm : m ∈ ms)
+    (he : m.exposed = true) (hfun : m.kind = .function)
+    (singles starL : List Param) (hpos : m.params.filter Param.isPos = singles ++ starL)
+    (hsing : ∀ p ∈ singles, p.kind = .positional)
+    (hstar : starL = [] ∨ ∃ sp, starL = [sp] ∧ sp.kind = .varPositional)
+    (cmd : Word) (hcmd : cmd.text = dash m.name)
+    (pargs sargs : List PosArg) (hp : posOk singles pargs) (hs : ∀ x ∈ sargs, ∃ sp ∈ starL, x.ok sp)
+    (it : Item) (hit : it.ok m.params) :
+    parseLine (commandTable ms) (.word cmd :: (renderPos pargs ++ (renderPos sargs ++ it.render)))
+      = parseLine (commandTable ms) (.word cmd :: (renderPos pargs ++ (renderPos sargs
+          ++ renderOpts (it.choices.map fun c => plainChoice c.p c.w c.a)))) := by
+  have hcs : ∀ c ∈ it.choices, c.ok m.params := by
+    cases it with
+    | one c => intro x hx; simp [Item.choices] at hx; exact hx ▸ hit
+    | cluster f jf fs c =>
+      obtain ⟨hf, hfs, hc, _⟩ := hit
+      intro x hx
+      simp only [Item.choices, List.mem_cons, List.mem_append, List.mem_map, List.not_mem_nil, or_false] at hx
+      rcases hx with rfl | ⟨y, hy, rfl⟩ | rfl
+      · exact hf.1
+      · exact (hfs y hy).1
+      · exact hc
+  have h1 := C17_roundtrip_cluster ms hwf m hm he hfun singles starL hpos hsing hstar cmd hcmd pargs sargs hp hs [] [it]
+    (by simp) (by simpa using hit)
+  have h2 := C17_roundtrip ms hwf m hm he hfun singles starL hpos hsing hstar cmd hcmd pargs sargs hp hs []
+    (it.choices.map fun c => plainChoice c.p c.w c.a) (by simp)
+    (by
+      intro x hx
+      obtain ⟨c, hc, rfl⟩ := List.mem_map.mp hx
+      obtain ⟨h1, h2, _, h4, _⟩ := hcs c hc
+      exact ⟨h1, h2, by simp [plainChoice], h4, by simp [plainChoice], by simp [plainChoice], by simp [plainChoice]⟩)
+  simp only [renderItems, renderOpts, itemChoices, List.flatMap_nil, List.nil_append, List.flatMap_cons, List.append_nil] at h1 h2
+  simp only [renderOpts]
+  rw [h1, h2, C17_form_irrelevant singles starL pargs sargs it.choices (it.choices.map fun c => plainChoice c.p c.w c.a)
+    (by simp [List.map_map, Function.comp_def, plainChoice])]
+
+/-- `-cVALUE` and `-c=VALUE` (one string; `c` the letter of an option that takes a value) bind the option exactly as
+`-c VALUE` does: the same call, the option's entry is the value — whatever the lexer makes of VALUE read as letters -/
+theorem C17_roundtrip_attached (ms : List Member) (hwf : wellFormed ms = true) (m : Member) (hm : m ∈ ms)
+    (he : m.exposed = true) (hfun : m.kind = .function)
+    (singles starL : List Param) (hpos : m.params.filter Param.isPos = singles ++ starL)
+    (hsing : ∀ p ∈ singles, p.kind = .positional)
+    (hstar : starL = [] ∨ ∃ sp, starL = [sp] ∧ sp.kind = .varPositional)
+    (cmd : Word) (hcmd : cmd.text = dash m.name)
+    (pargs sargs : List PosArg) (hp : posOk singles pargs) (hs : ∀ x ∈ sargs, ∃ sp ∈ starL, x.ok sp)
+    (p : Param) (hpm : p ∈ m.params) (hk : p.kind = .optional) (f : Char) (hf : (p, some f) ∈ assignFlags m.params [])
+    (w : Word) (a : Atom) (hconv : convert p.conv w = some a) (hdd : w.text ≠ dashdash)
+    (e : Bool) (letters : List (Char × Option Word)) :
+    parseLine (commandTable ms) (.word cmd :: (renderPos pargs ++ (renderPos sargs ++ [.attached f e w letters])))
+      = some (.act (.call m.name
+          (m.params.map fun q => (q.name, argFor (finalState singles starL pargs sargs [plainChoice p w a]) q))))
+    ∧ parseLine (commandTable ms) (.word cmd :: (renderPos pargs ++ (renderPos sargs ++ [.attached f e w letters])))
+      = parseLine (commandTable ms) (.word cmd :: (renderPos pargs ++ (renderPos sargs ++ [.short f, .word w])))
+    ∧ argFor (finalState singles starL pargs sargs [plainChoice p w a]) p = .one a := by
+  have hopt : p.isOpt = true := by simp [Param.isOpt, hk]
+  have hkf : p.kind ≠ .flag := by simp [hk]
+  have h1 := roundtrip_one ms hwf m hm he hfun singles starL hpos hsing hstar cmd hcmd pargs sargs hp hs
+    { p := p, short := some f, w := w, a := a, glued := some e, tail := letters }
+    ⟨hpm, hopt, by intro g hg; cases hg; exact hf, fun _ => hconv, by simp, by simp, fun _ => hdd⟩
+  have h2 := roundtrip_one ms hwf m hm he hfun singles starL hpos hsing hstar cmd hcmd pargs sargs hp hs
+    { p := p, short := some f, w := w, a := a }
+    ⟨hpm, hopt, by intro g hg; cases hg; exact hf, fun _ => hconv, by simp, by simp, by simp⟩
+  have hr1 : ({ p := p, short := some f, w := w, a := a, glued := some e, tail := letters } : Choice).render
+      = [.attached f e w letters] := by simp [Choice.render, hkf]
+  have hr2 : ({ p := p, short := some f, w := w, a := a } : Choice).render = [.short f, .word w] := by
+    simp [Choice.render, hkf]
+  rw [hr1] at h1
+  rw [hr2] at h2
+  refine ⟨h1, h1.trans h2.symm, ?_⟩
+  have := C17_value_option_given singles starL pargs sargs [plainChoice p w a] (by simp) (plainChoice p w a) (by simp)
+    (by simpa [plainChoice] using hopt)
+  simpa [plainChoice, Choice.val, hkf] using this
+
+/-- the separator `--` anywhere in or in front of the positional strings (options, in any form, before it): the same
+call as without it.  The strings behind it are words whatever they look like (the lexer's doing); the command must have
+a positional parameter to take the separator in, unless a positional string stands in front of it -/
+theorem C17_roundtrip_after_separator (ms : List Member) (hwf : wellFormed ms = true) (m : Member) (hm : m ∈ ms)
+    (he : m.exposed = true) (hfun : m.kind = .function)
+    (singles starL : List Param) (hpos : m.params.filter Param.isPos = singles ++ starL)
+    (hsing : ∀ p ∈ singles, p.kind = .positional)
+    (hstar : starL = [] ∨ ∃ sp, starL = [sp] ∧ sp.kind = .varPositional)
+    (cmd : Word) (hcmd : cmd.text = dash m.name)
+    (pargs sargs : List PosArg) (hp : posOk singles pargs) (hs : ∀ x ∈ sargs, ∃ sp ∈ starL, x.ok sp)
+    (pre : List Item) (hpre : ∀ it ∈ pre, it.ok m.params)
+    (w1 w2 : List Tok) (hsplit : w1 ++ w2 = renderPos pargs ++ renderPos sargs)
+    (htake : w1 ≠ [] ∨ singles ++ starL ≠ []) :
+    parseLine (commandTable ms) (.word cmd :: (renderItems pre ++ (w1 ++ .sep :: w2)))
+      = some (.act (.call m.name
+          (m.params.map fun p => (p.name, argFor (finalState singles starL pargs sargs (itemChoices pre)) p))))
+    ∧ parseLine (commandTable ms) (.word cmd :: (renderItems pre ++ (w1 ++ .sep :: w2)))
+      = parseLine (commandTable ms) (.word cmd :: (renderItems pre ++ (w1 ++ w2))) := by
+  have hok := wf_params hwf hm he
+  have hwords : ∀ t ∈ w1 ++ w2, Tok.isOther t = false := by
+    intro t ht
+    rw [hsplit] at ht
+    rcases List.mem_append.mp ht with h | h <;> exact (plain_renderPos (optTable m.params) _ t h).2.1
+  have hany : (Tok.word cmd :: (renderItems pre ++ (w1 ++ .sep :: w2))).any Tok.isOther = false := by
+    rw [List.any_eq_false]
+    intro t ht
+    simp only [List.mem_cons, List.mem_append] at ht
+    have : Tok.isOther t = false := by
+      rcases ht with rfl | h | h | rfl | h
+      · rfl
+      · exact (plain_renderItems hok hpre t h).2.1
+      · exact hwords t (List.mem_append_left _ h)
+      · rfl
+      · exact hwords t (List.mem_append_right _ h)
+    simp [this]
+  have h1 : parseLine (commandTable ms) (.word cmd :: (renderItems pre ++ (w1 ++ .sep :: w2)))
+      = some (.act (.call m.name
+          (m.params.map fun p => (p.name, argFor (finalState singles starL pargs sargs (itemChoices pre)) p)))) := by
+    simp only [parseLine, hany, hcmd, lookupCmd_exposed hwf hm he]
+    exact parseCmd_roundtrip_sep hfun hok hpos hsing hstar hp hs hpre w1 w2 hsplit htake
+  refine ⟨h1, ?_⟩
+  have h2 := C17_roundtrip_cluster ms hwf m hm he hfun singles starL hpos hsing hstar cmd hcmd pargs sargs hp hs pre []
+    hpre (by simp)
+  have hnil : renderItems ([] : List Item) = [] := rfl
+  rw [hnil, List.append_nil, List.append_nil, ← hsplit] at h2
+  rw [h1, h2]
+
+/-- behind the letter of an option that takes no value (a flag, `-h`) stands a character that is no option letter of
+the command (`-lx`, `-hx`), or nothing but the `=` (`-l=`, `-h=`): `ignored explicit argument`; nothing behind it is
+looked at, nothing of the string takes effect -/
+theorem C17_attached_refused (me : Str) (tbl : List OptSpec) (c : Char) (e : Bool) (v : Word)
+    (more : List (Char × Option Word)) (rest : List Tok) (st : PState) (o : OptSpec)
+    (hfind : findShort tbl c = some o) (hno : o.valued = none)
+    (hbad : more = [] ∨ ∃ c' a' more', more = (c', a') :: more' ∧ findShort tbl c' = none) :
+    scanOpts me tbl (.attached c e v more :: rest) st = .stop (some (.error .explicitArg)) := by
+  have hw : walk tbl more o (some v) [] = .refused := by
+    rw [walk.eq_def]
+    rcases hbad with rfl | ⟨c', a', more', rfl, hf⟩
+    · simp [hno]
+    · simp [hno, hf]
+  simp [scanOpts, hfind, hw]
+
+/-- a single-dash string whose first letter is no option of the command is left over whole (`-zG`, `-z=G`, `-1x`), like
+an unknown short flag: the scan goes on, and the line is answered `unrecognized arguments` if nothing else is wrong -/
+theorem C17_unknown_attached_left_over (me : Str) (tbl : List OptSpec) (c : Char) (e : Bool) (v : Word)
+    (more : List (Char × Option Word)) (rest : List Tok) (st : PState) (hfind : findShort tbl c = none) :
+    scanOpts me tbl (.attached c e v more :: rest) st = scanOpts me tbl rest { st with extras := true } := by
+  simp [scanOpts, hfind]
 
 /-- an exact option string wins over being the prefix of another one (`--n` with both `--n` and `--num` present) -/
 theorem C17_exact_wins (ps : List Param) (hok : paramsOk ps = true) (o : OptSpec) (ho : o ∈ optTable ps) :
@@ -352,5 +546,120 @@ example : parseLine e17T [.word e17TuneWord, .eq ['z', 'z'] (e17Num ['1'] 1)] = 
 example : parseLine e17T [.word e17TuneWord, .long ['z', 'z']] = some (.error .unrecognized) := by decide +kernel
 -- `--hint=--`: outside the fragment (argparse stores an empty list)
 example : parseLine e17T [.word e17TuneWord, .eq e17Hint.name (e17Text dashdash)] = none := by decide +kernel
+
+/-! non-vacuity of the single-dash forms and of the separator: `note(first, *words, sep="+", high=0, quiet=False, loud=False)`
+— `-s SEP`, `-H HIGH` (`-h` is help), `-q`, `-l` -/
+
+def e17First : Param := { name := ['f', 'i', 'r', 's', 't'], kind := .positional, pass := .byPosition, conv := .str }
+def e17Words : Param := { name := ['w', 'o', 'r', 'd', 's'], kind := .varPositional, pass := .byStar, conv := .str }
+def e17Sep : Param := { name := ['s', 'e', 'p'], kind := .optional, pass := .byKeyword, conv := .str }
+def e17High : Param := { name := ['h', 'i', 'g', 'h'], kind := .optional, pass := .byKeyword, conv := .int }
+def e17Quiet : Param := { name := ['q', 'u', 'i', 'e', 't'], kind := .flag, pass := .byKeyword, conv := .str }
+def e17Lou : Param := { name := ['l', 'o', 'u', 'd'], kind := .flag, pass := .byKeyword, conv := .str }
+def e17Note : Member :=
+  { name := ['n', 'o', 't', 'e'], kind := .function, params := [e17First, e17Words, e17Sep, e17High, e17Quiet, e17Lou] }
+def e17NT : Table := commandTable [e17Note, e17Tune]
+def e17NoteWord : Word := e17Text ['n', 'o', 't', 'e']
+def e17A : Word := e17Text ['a']
+def e17B : Word := e17Text ['b']
+def e17Three : Word := e17Num ['3'] 3
+/-- the namespace of `note a … ` with the given option entries -/
+def e17Call (ws : List Atom) (sep high quiet loud : ArgVal) : Option Verdict :=
+  some (.act (.call e17Note.name [(e17First.name, .one (.str ['a'])), (e17Words.name, .many ws), (e17Sep.name, sep),
+    (e17High.name, high), (e17Quiet.name, quiet), (e17Lou.name, loud)]))
+
+example : wellFormed [e17Note, e17Tune] = true := by decide +kernel
+example : assignFlags e17Note.params [] = [(e17First, none), (e17Words, none), (e17Sep, some 's'), (e17High, some 'H'),
+    (e17Quiet, some 'q'), (e17Lou, some 'l')] := by decide +kernel
+-- `note a -ql` = `note a -q -l`
+example : parseLine e17NT [.word e17NoteWord, .word e17A, .attached 'q' false (e17Text ['l']) [('l', none)]]
+    = e17Call [] .dflt .dflt (.flag true) (.flag true) := by decide +kernel
+example : parseLine e17NT [.word e17NoteWord, .word e17A, .attached 'q' false (e17Text ['l']) [('l', none)]]
+    = parseLine e17NT [.word e17NoteWord, .word e17A, .short 'q', .short 'l'] := by decide +kernel
+-- `note a -H3`, `note a -H=3`, `note a -H 3`: the same call
+example : parseLine e17NT [.word e17NoteWord, .word e17A, .attached 'H' false e17Three [('3', none)]]
+    = e17Call [] .dflt (.one (.int 3)) (.flag false) (.flag false) := by decide +kernel
+example : parseLine e17NT [.word e17NoteWord, .word e17A, .attached 'H' true e17Three [('3', none)]]
+    = parseLine e17NT [.word e17NoteWord, .word e17A, .short 'H', .word e17Three] := by decide +kernel
+-- `note -qlH3 a`, `note -qlH 3 a`: flags, then an option with its value attached / in the next string; options first
+example : parseLine e17NT [.word e17NoteWord,
+      .attached 'q' false (e17Text ['l', 'H', '3']) [('l', some (e17Text ['H', '3'])), ('H', some e17Three), ('3', none)], .word e17A]
+    = e17Call [] .dflt (.one (.int 3)) (.flag true) (.flag true) := by decide +kernel
+example : parseLine e17NT [.word e17NoteWord,
+      .attached 'q' false (e17Text ['l', 'H']) [('l', some (e17Text ['H'])), ('H', none)], .word e17Three, .word e17A]
+    = e17Call [] .dflt (.one (.int 3)) (.flag true) (.flag true) := by decide +kernel
+-- `note a -q=l`: one `=` behind the first letter is dropped, also behind a flag
+example : parseLine e17NT [.word e17NoteWord, .word e17A, .attached 'q' true (e17Text ['l']) [('l', none)]]
+    = e17Call [] .dflt .dflt (.flag true) (.flag true) := by decide +kernel
+-- `note a -s=`: an empty string value; `note a -H=`: no int
+example : parseLine e17NT [.word e17NoteWord, .word e17A, .attached 's' true (e17Text []) []]
+    = e17Call [] (.one (.str [])) .dflt (.flag false) (.flag false) := by decide +kernel
+example : parseLine e17NT [.word e17NoteWord, .word e17A, .attached 'H' true (e17Text []) []] = some (.error .badValue) := by
+  decide +kernel
+-- `note a -qH=3`: inside a cluster the `=` belongs to the value (`=3` is no int); `-s` takes it
+example : parseLine e17NT [.word e17NoteWord, .word e17A,
+      .attached 'q' false (e17Text ['H', '=', '3']) [('H', some (e17Text ['=', '3'])), ('=', some e17Three), ('3', none)]]
+    = some (.error .badValue) := by decide +kernel
+example : parseLine e17NT [.word e17NoteWord, .word e17A,
+      .attached 'q' false (e17Text ['s', '=', '3']) [('s', some (e17Text ['=', '3'])), ('=', some e17Three), ('3', none)]]
+    = e17Call [] (.one (.str ['=', '3'])) .dflt (.flag true) (.flag false) := by decide +kernel
+-- `-qx`, `-q=`, `-hx`: ignored explicit argument; nothing of the string takes effect
+example : parseLine e17NT [.word e17NoteWord, .word e17A, .attached 'q' false (e17Text ['x']) [('x', none)]]
+    = some (.error .explicitArg) := by decide +kernel
+example : parseLine e17NT [.word e17NoteWord, .word e17A, .attached 'q' true (e17Text []) []] = some (.error .explicitArg) := by
+  decide +kernel
+example : parseLine e17NT [.word e17NoteWord, .word e17A, .attached 'h' false (e17Text ['x']) [('x', none)]]
+    = some (.error .explicitArg) := by decide +kernel
+-- `-qh`, `-hq`: the command's help; `-hH` at the end of the line: the missing value is reported first; `-hH x`: help
+example : parseLine e17NT [.word e17NoteWord, .word e17A, .attached 'q' false (e17Text ['h']) [('h', none)]]
+    = some (.help (some e17Note.name)) := by decide +kernel
+example : parseLine e17NT [.word e17NoteWord, .word e17A, .attached 'h' false (e17Text ['q']) [('q', none)]]
+    = some (.help (some e17Note.name)) := by decide +kernel
+example : parseLine e17NT [.word e17NoteWord, .word e17A, .attached 'h' false (e17Text ['H']) [('H', none)]]
+    = some (.error .needsValue) := by decide +kernel
+example : parseLine e17NT [.word e17NoteWord, .word e17A, .attached 'h' false (e17Text ['H']) [('H', none)], .word (e17Text ['x'])]
+    = some (.help (some e17Note.name)) := by decide +kernel
+-- `-qHx`: the flag is fine, the value is no int
+example : parseLine e17NT [.word e17NoteWord, .word e17A,
+      .attached 'q' false (e17Text ['H', 'x']) [('H', some (e17Text ['x'])), ('x', none)]] = some (.error .badValue) := by
+  decide +kernel
+-- `-zG`, `-1x`: the first letter is no option of the command — left over whole
+example : parseLine e17NT [.word e17NoteWord, .word e17A, .attached 'z' false (e17Text ['G']) [('G', none)]]
+    = some (.error .unrecognized) := by decide +kernel
+-- `-s--`, `-s=--`: outside the fragment (argparse stores an empty list)
+example : parseLine e17NT [.word e17NoteWord, .word e17A, .attached 's' false (e17Text dashdash) [('-', some (e17Text ['-'])), ('-', none)]]
+    = none := by decide +kernel
+-- top level: `-hh` is help, `-hx` and `-h=` are refused
+example : parseLine e17NT [.attached 'h' false (e17Text ['h']) [('h', none)]] = some (.help none) := by decide +kernel
+example : parseLine e17NT [.attached 'h' false (e17Text ['x']) [('x', none)], .word e17NoteWord] = some (.error .explicitArg) := by
+  decide +kernel
+example : parseLine e17NT [.attached 'h' true (e17Text []) []] = some (.error .explicitArg) := by decide +kernel
+-- `note -- a b`, `note a -- b`, `note a b --`, `note -q -- a b`: the separator changes nothing
+example : parseLine e17NT [.word e17NoteWord, .sep, .word e17A, .word e17B]
+    = e17Call [.str ['b']] .dflt .dflt (.flag false) (.flag false) := by decide +kernel
+example : parseLine e17NT [.word e17NoteWord, .word e17A, .sep, .word e17B]
+    = parseLine e17NT [.word e17NoteWord, .word e17A, .word e17B] := by decide +kernel
+example : parseLine e17NT [.word e17NoteWord, .word e17A, .word e17B, .sep]
+    = parseLine e17NT [.word e17NoteWord, .word e17A, .word e17B] := by decide +kernel
+example : parseLine e17NT [.word e17NoteWord, .short 'q', .sep, .word e17A, .word e17B]
+    = e17Call [.str ['b']] .dflt .dflt (.flag true) (.flag false) := by decide +kernel
+-- `note a -- -q`: behind the separator `-q` is a word
+example : parseLine e17NT [.word e17NoteWord, .word e17A, .sep, .word (e17Text ['-', 'q'])]
+    = e17Call [.str ['-', 'q']] .dflt .dflt (.flag false) (.flag false) := by decide +kernel
+-- `note --`: the positional is missing; `note a -q --`, `note a -q -- b`: the separator and all behind it are left over
+example : parseLine e17NT [.word e17NoteWord, .sep] = some (.error .missing) := by decide +kernel
+example : parseLine e17NT [.word e17NoteWord, .word e17A, .short 'q', .sep] = some (.error .unrecognized) := by decide +kernel
+example : parseLine e17NT [.word e17NoteWord, .word e17A, .short 'q', .sep, .word e17B] = some (.error .unrecognized) := by
+  decide +kernel
+-- `note -q --`: options, the separator, nothing behind it — the positional is missing
+example : parseLine e17NT [.word e17NoteWord, .short 'q', .sep] = some (.error .missing) := by decide +kernel
+-- `tune --`: a command without positional parameters leaves the separator over; `tune -n --`: the value is missing
+example : parseLine e17NT [.word e17TuneWord, .sep] = some (.error .unrecognized) := by decide +kernel
+example : parseLine e17NT [.word e17TuneWord, .short 'n', .sep, .word e17Three] = some (.error .needsValue) := by decide +kernel
+-- an ambiguous abbreviation in front of the separator is fatal as ever
+example : parseLine e17NT [.word e17TuneWord, .long ['s'], .sep] = some (.error .ambiguous) := by decide +kernel
+-- a second `--` (the lexer's `other`) and `--` as the first string: outside the fragment
+example : parseLine e17NT [.word e17NoteWord, .sep, .word e17A, .other] = none := by decide +kernel
+example : parseLine e17NT [.sep, .word e17NoteWord, .word e17A] = none := by decide +kernel
 
 end Taskpool.Control
